@@ -8,7 +8,6 @@ name=$1; pkg=$2; rx=$3; shift 3
 wt=/tmp/mut-$name; out=/tmp/mut-$name-out
 export GOFLAGS=-mod=mod GOPROXY=off
 cd $wt || exit 2
-git stash -q 2>/dev/null; git stash pop -q 2>/dev/null
 # make sure the tree is exactly HEAD + patch + demo
 git checkout -q -- . ; git apply $out/patch.diff || { echo "patch does not apply"; exit 2; }
 for f in $out/demo/*_test.go; do [ -f "$f" ] && cp -n "$f" "$wt/$pkg/" 2>/dev/null; done
